@@ -123,6 +123,26 @@ def run(pid, tier):
             why = check_diag(s, payload)
             if why: oracle_fail.append((s, why, dict(diagnostic=payload.decode("utf8", "replace")[:800])))
         elif st != "OK": oracle_fail.append((s, "unexpected outcome " + st, None))
+    # the same through the public entry point on files: a sample of rejected inputs (those that are not UTF-8 among them) written as
+    # template files next to a good one; compile_templates must succeed, print the diagnostic the in-process call gave, and go on
+    import build_lib
+    rej = [(s, decode_outcome(a)[1]) for s, a in zip(cases, impl) if decode_outcome(a)[0] == "ERR" and 0 < len(s) < 300]
+    nonutf = [x for x in rej if not x[0].isascii()]
+    pick = rng.sample(nonutf, min(len(nonutf), 6 if tier == "quick" else 40)) + rng.sample(rej, min(len(rej), 6 if tier == "quick" else 40))
+    pick += [(b"@()\ncaf\xe9\n@(", None), (b"@* Gr\xfc\xdfe *@\n@()\n@if {", None), (b"@()\n@for x in {\n", None), (b"@()\nok\n}\n", None)]
+    fscen = [[('W', 't/bad.rs.html', s), ('W', 't/good.rs.html', '@()\nG'), ('R', [('c', 't')])] for s, _ in pick]
+    for (s, diag), r in zip(pick, build_lib.run_scenarios(fscen)):
+        run = [x for x in r["runs"] if x["kind"] == "R"][0]
+        chk.count(b"file:" + s, True)
+        out = run["out"]; files = build_lib.snap_files(run["after"] or {})
+        if run["status"] != "ok":
+            oracle_fail.append((s, "compile_templates on a directory holding this rejected template did not succeed (%s): a broken template must be reported and skipped" % run["status"], None)); continue
+        if b"cargo:warning=Template parse error" not in out or (diag is not None and diag.strip() and diag.strip().split(b"\n")[0] not in out):
+            oracle_fail.append((s, "compile_templates rejected the template file without the diagnostic", dict(stdout=out.decode("utf8", "replace")[-600:]))); continue
+        if b"templates/template_good_html.rs" not in files:
+            oracle_fail.append((s, "the good template next to a rejected one was not compiled", None)); continue
+        if "model" in run and run["model"].get("out") not in (None, out):
+            disagree.append((s, "OK " + out.hex(), "OK " + run["model"]["out"].hex()))
     for s in cases[5:8] + cases[-3:]: chk.sample(dict(input=s[:200].decode("latin1")))
     chk.notes["outcome_histogram"] = hist; chk.notes["size_histogram"] = sizes
     chk.notes["disagreements_model_vs_impl"] = len(disagree); chk.notes["oracle_failures"] = len(oracle_fail)
